@@ -8,6 +8,8 @@ EXPLANATION = ("Bounded runtime contracts: acceptance-rejection (multi_sampling 
 ASSUMPTIONS = ["A-LIB: numpy.random / tf.random deliver independent uniform variates (statistical clauses only); numpy.histogram, numpy.percentile, numpy.digitize are "
                "trusted only through the comparison with the independent implementations in the contracts"]
 
+EXPLANATION += (' Proved (all inputs): LinearInterp (3 / 4 nodes) and BWGenerator CDF inversion, antiderivative and range; multi_sampling / single_sampling2 / GenTest.generate return exactly N events for every N >= 1 (loop VCs after a mechanical inlining of the generator into its driving loop).')
+
 from vt.contracts import iface_gen  # noqa: F401,E402
 from vt.contracts import interp_sym  # noqa: F401,E402
 from vt.contracts import bwgen_sym  # noqa: F401,E402
